@@ -13,14 +13,14 @@ SALTS = ["backend_moves", "phospho_kappa", "phospho_distribution", "kappa", "del
          "omega", "pI", "reduced", "profiles"]
 
 
-CHEAP = ["pH_extremes", "compfile", "fractions_edit", "reduced", "profiles", "phospho_set_clear"]
+CHEAP = ["pH_extremes", "compfile", "fractions_edit", "reduced", "profiles", "phospho_set_clear", "phospho_left_set"]
 
 
 def salt(S, obj, seq, rng, rep, k=None, cheap=False):
     """Perform `k` (default 1-3) random legal calls on obj.  None of them may change what obj answers afterwards.
     cheap=True leaves out everything that needs a delta-max search (for long sequences)."""
     done = []
-    for name in rng.sample(CHEAP if cheap else SALTS + ["phospho_set_clear"], k or rng.randint(1, 3)):
+    for name in rng.sample(CHEAP if cheap else SALTS + ["phospho_set_clear", "phospho_left_set"], k or rng.randint(1, 3)):
         done.append(name)
         if name == "phospho_kappa" or name == "phospho_distribution":
             sty = [i + 1 for i, c in enumerate(seq) if c in "STY"]
@@ -32,6 +32,11 @@ def salt(S, obj, seq, rng, rep, k=None, cheap=False):
             if name == "phospho_distribution":
                 obj.get_full_phosphostatus_kappa_distribution()
             obj.clear_phosphosites()
+        elif name == "phospho_left_set":
+            # phosphosite annotation only feeds the phospho-queries; left in place it must not change any other answer
+            sty = [i + 1 for i, c in enumerate(seq) if c in "STY"]
+            if sty:
+                obj.set_phosphosites(rng.sample(sty, min(len(sty), rng.randint(1, 4))))
         elif name == "phospho_set_clear":
             sty = [i + 1 for i, c in enumerate(seq) if c in "STY"]
             if sty:
@@ -99,3 +104,17 @@ def present(rng, seq):
     if rng.random() < 0.5:
         out.append("\n")
     return "".join(out)
+
+
+def make_object(S, seq, rng, rep, allow_backend=True):
+    """An object for `seq` obtained the way different users obtain one: plain string, typed with blanks / line breaks /
+    lower case, or a front-end handle around a backend object built from lower-/mixed-case text."""
+    r = rng.random()
+    if r < 0.6:
+        return S["SP"](seq)
+    if r < 0.85 or not allow_backend:
+        rep.cnt("objects_from_whitespace_lowercase_text")
+        return S["SP"](present(rng, seq))
+    rep.cnt("objects_around_backend_lowercase")
+    mixed = "".join(c.lower() if rng.random() < 0.6 else c for c in seq)
+    return S["SP"](SeqObj=S["Sequence"](mixed))
